@@ -48,5 +48,23 @@ CLAIMS.update({
                 text="strip_carets on every string over {^,\",CR,LF,a} up to length 9/11 against a three-state transducer; find_cmd_strings on every <=4/5-token string of a 19-token alphabet x 4 embeddings against a regex-free reference (complete result lists compared, so forward and converse); PowerShell invocations: token x switches x every prefix of -encodedcommand x -// style x quoting x payload x caret at every position x context.",
                 note="PowerShell generator restricted to the domain where the statement is unambiguous (listed in evidence assumptions). One known finding (end = len(data)-start, pinned by test_shell)."),
 })
-NOT_APPLICABLE = {pid: "check not built yet (work in progress; will be claimed or justified before the end)" for pid in
-                  ["C02","C09","C10","C11","C12","C13","C14","C15","C16","C17","C18","C19","C20"]}
+CLAIMS.update({
+    "C13": dict(engine="seqx+streams", design_ref="DESIGN.md 4 (C13)",
+                technique="exhaustive enumeration of payload lengths / paddings / acceptance boundaries / line-break assignments / hex runs / xor keys; own RFC 4648 and hex decoders as reference",
+                text="Converse: payloads of every length 0..40/64 x 5 byte classes x call forms x embeddings, every acceptance-rule boundary on both sides, every assignment of 9 line-break spellings to 6 gaps, hex runs x case x digit prefixes 0..24: exactly one node with the layer's label must cover exactly the encoded text with the payload as value. Forward: every base64/hex/xor node met anywhere (incl. xor keys 0..999 and the key-guessing form) is recomputed independently.",
+                note="Own RFC 4648 / hex decoders (no binascii); LF is not treated as a neutral delimiter for bare base64."),
+    "C14": dict(engine="seqx+streams", design_ref="DESIGN.md 4 (C14)",
+                technique="exhaustive enumeration of escape sequences (token BFS + full value domains) against regex-free reference decoders",
+                text="XML references (token sequences <=6/7 and the full reference set in every role), chr/chrw/chrb of every code point 0..99999, unescape() over an escape alphabet and all 256 %XX, UTF-16 runs over byte-pair tokens and every Latin-1 code unit: complete decoder result lists are compared with reference run finders and an own UTF-8 encoder; forward monitor on every such node in scans.",
+                note="Decimal references limited to 3 digits; UTF-16 wide-string lists (NUL NUL separators) only forward."),
+    "C15": dict(engine="seqx", design_ref="DESIGN.md 4 (C15)",
+                technique="exhaustive enumeration of literal contents x quoting x separators x spacing x dialects against Python string semantics",
+                text="Every chain of 2 literals (contents <=2/3 over 7 characters incl. operators), 3 and 4 literals, every reverse/StrReverse form, and the four replace dialects over (x,a,b) from the same literal set: the decoder's complete result list must be the single expected node; a sample of chains is also scanned with the shipped registry.",
+                note="Literals without quote characters; empty search string in replace is outside the statement."),
+    "C17": dict(engine="seqx", design_ref="DESIGN.md 4 (C17)",
+                technique="exhaustive enumeration of (keyword list, data) over a 7-symbol alphabet against a regex-based reference search",
+                text="Every data string of length <=6/7 over {a,A,b,1,.,space,0xE9} x every keyword of length 1-2 (and pairs from a 14-keyword menu, length-3 keywords) is searched with find_keywords and via a registry built from a generated directory; complete hit lists (span, value, type, MixedCase label) compared with the reference.",
+                note="re.finditer on the escaped keyword is the definition of leftmost non-overlapping search."),
+})
+ALL = ["C%02d" % i for i in range(1, 21)]
+NOT_APPLICABLE = {pid: "check not built yet (work in progress; will be claimed or justified before the end)" for pid in ALL if pid not in CLAIMS}
